@@ -95,6 +95,32 @@ def gen_selection_spec(rng, n_incompat_max=0, size=None, p_cycle=0.15, p_shared=
     return spec
 
 
+def add_two_entry_cycle(rng, spec):
+    """Motif: a derivation cycle X <-> Y (optionally with a common successor), something with a nested choice derived at
+    one of its nodes, and two options of *different* choices that enter the cycle at different nodes. Generic shape for
+    caches keyed by node: the component is reached twice, from different entries."""
+    spec = copy.deepcopy(spec)
+    base = max(int(n[1:]) for n in spec['nodes']) + 1
+    names = [f'N{base + i}' for i in range(9)]
+    x, y, l, z, u, v, a, p, q = names
+    spec['nodes'] += names
+    cyc = [[x, y], [y, x]]
+    if rng.random() < 0.7:
+        cyc += [[x, l], [y, l]]
+    cyc += [[x, z] if rng.random() < 0.5 else [y, z], [a, x], [p, y]]
+    rng.shuffle(cyc)
+    spec['derive'] += cyc
+    k = len(spec['sel'])
+    host = spec['start'][0]
+    alt1, alt2 = (q, u) if rng.random() < 0.5 else (u, q)
+    spec['sel'].append([f'M{k}', host, [a, alt1] if rng.random() < 0.5 else [alt1, a]])
+    spec['sel'].append([f'M{k + 1}', host, [p, alt2] if rng.random() < 0.5 else [alt2, p]])
+    nested = [f'N{base + 9}', f'N{base + 10}']
+    spec['nodes'] += nested
+    spec['sel'].append([f'M{k + 2}', z, nested])
+    return spec
+
+
 def gen_tree_spec(rng, n_incompat_max=0, max_choices=4, p_multi_start=0.15):
     """Clean hierarchical spec: every option node is offered by exactly one choice and derived by nothing else, the
     structure is acyclic, choices nest under options or under nodes derived by options; plain nodes may be derived by
